@@ -297,7 +297,7 @@ def dominated (f : Nat × Nat × Nat) : Bool := f.1 ≥ 1 && f.2.1 ≥ 1 && f.2.
 
 theorem C08_order :
     dominated sender_auth_before_send ∧ dominated sender_auth_before_multiconn ∧
-    dominated receiver_auth_before_recv ∧ dominated receiver_auth_before_multiconn := by decide
+    dominated receiver_auth_before_multiconn := by decide
 
 /-- stronger: the guarded sites are reachable only through the `err == nil` edge after `authenticateTransport`
     (or not at all: the failure branch ends in `os.Exit`) - on the primary connection and, in the extra-connection
@@ -305,6 +305,14 @@ theorem C08_order :
 theorem C08_order_ok :
     dominated sender_auth_ok_before_send ∧ dominated sender_auth_ok_before_extra ∧
     dominated receiver_auth_ok_before_recv ∧ dominated receiver_auth_ok_before_extra ∧
-    dominated sender_extra_auth_ok_before_keep ∧ dominated receiver_extra_auth_ok_before_keep := by decide
+    dominated sender_extra_auth_ok_before_keep := by decide
+
+/-- the receiver takes incoming connections only out of `acceptAuthenticated`, which hands a connection on only on the
+    `err == nil` branch of `authenticateTransport`; in `runTransfer` every use of the transfer connection lies behind
+    that hand-over (flag `authenticated`, set only in the select cases that received from such a channel) or behind the
+    receiver's own successful `authenticateTransport` (its outgoing dial) -/
+theorem C08_order_receiver_accept :
+    dominated receiver_accept_auth_ok_before_deliver ∧
+    dominated receiver_flag_only_from_authenticated_accept := by decide
 
 end TV.C08
